@@ -4,5 +4,5 @@ CONSTANTS Deep
 VARIABLE c
 GInit == c \in Plan(Deep) /\ seen = <<>>
 GNext == UNCHANGED <<c, seen>>
-Emit == PrintT("@@CASE " \o ToJson(c))
+Emit == PrintT("@@CASE " \o ToJson([cfg |-> c, bounds |-> BoundForms, lowers |-> LowerForms, widths |-> WidthForms]))
 ====
